@@ -201,3 +201,188 @@ def ruler_history(state, cfg, doc):
         if fails:
             break
     return {"sig": tuple((m[0], m[1]) for m in model) + (cache is None,), "fail": [dict(f, input=[list(map(str, t)) for t in trace]) for f in fails]}
+
+
+# ---------------------------------------------------------------------------- C14: exceptions from user code
+class _Boom(Exception):
+    pass
+
+
+PROBES = ["*a* **b** `c`\n\n- x\n- y\n\n> q\n\n1. z\n", "# h\n\n[l](/u) ![i](/s) <http://x.y>\n\n```py\ncode\n```\n", "a ~~s~~ | b\n-|-\n1|2\n\n---\n"]
+
+
+def _fingerprint(md):
+    return (md.get_active_rules(), dict(md.options), sorted(md.renderer.rules), [md.render(p) for p in PROBES])
+
+
+def c14_crash(state, cfg, case):
+    """case = (kind, where, nth, src).  User code raises at its nth invocation; afterwards the instance must be
+    indistinguishable from a pristine twin."""
+    kind, where, nth, src = case
+    md = U.make_md(cfg)
+    twin = U.make_md(cfg)
+    count = [0]
+
+    def maybe():
+        count[0] += 1
+        if count[0] == nth:
+            raise _Boom()
+
+    if kind == "rule":
+        chain, pos = where
+
+        def plugin_block(st, startLine, endLine, silent):
+            maybe()
+            return False
+
+        def plugin_inline(st, silent):
+            maybe()
+            return False
+
+        def plugin_core(st):
+            maybe()
+
+        def plugin_inline2(st):
+            maybe()
+
+        for m in (md, twin):
+            if chain == "block":
+                m.block.ruler.before("paragraph", "zz_plugin", plugin_block if m is md else (lambda *a: False), {"alt": ["paragraph", "reference", "blockquote", "list"]})
+            elif chain == "inline":
+                m.inline.ruler.before("text", "zz_plugin", plugin_inline if m is md else (lambda *a: False))
+            elif chain == "inline2":
+                m.inline.ruler2.push("zz_plugin", plugin_inline2 if m is md else (lambda *a: None))
+            else:
+                (m.core.ruler.before if pos == "first" else m.core.ruler.after)("block" if pos == "first" else "inline", "zz_plugin", plugin_core if m is md else (lambda *a: None))
+    elif kind == "render_rule":
+        def bad_rule(self, tokens, idx, options, env):
+            maybe()
+            return ""
+
+        md.add_render_rule(where, bad_rule)
+        twin.add_render_rule(where, lambda self, tokens, idx, options, env: "")
+    elif kind == "highlight":
+        def hl(code, lang, attrs):
+            maybe()
+            return ""
+
+        md.options["highlight"] = hl
+        twin.options["highlight"] = lambda code, lang, attrs: ""
+    before = (md.get_active_rules(), {k: v for k, v in md.options.items() if k != "highlight"})
+    raised = False
+    try:
+        if kind == "reset":
+            depth = where
+            with md.reset_rules():
+                md.disable("emphasis")
+                if depth >= 2:
+                    try:
+                        with md.reset_rules():
+                            md.disable("link")
+                            md.enable("emphasis")
+                            if nth == 2:
+                                raise _Boom()
+                    except _Boom:
+                        pass
+                    # back in the outer block: the inner block's changes must be undone
+                    if "link" not in md.get_active_rules()["inline"] or "emphasis" in md.get_active_rules()["inline"]:
+                        return {"sig": case[:3], "fail": [{"what": "nested reset_rules block did not restore the rules in force on its entry", "key": "C14/reset-nested"}]}
+                md.render(src)
+                if nth == 1:
+                    raise _Boom()
+        else:
+            md.render(src)
+    except _Boom:
+        raised = True
+    fails = []
+    after = (md.get_active_rules(), {k: v for k, v in md.options.items() if k != "highlight"})
+    if after != before:
+        fails.append({"what": f"active rules/options changed by the failed call: {kind} {where}", "key": f"C14/{kind}/state"})
+    # subsequent parses: user code no longer raises (count passed nth) -> must equal the twin
+    try:
+        got = [md.render(p) for p in PROBES]
+        exp = [twin.render(p) for p in PROBES]
+        if got != exp:
+            fails.append({"what": f"subsequent renders differ from a pristine twin after {kind} {where} raised at invocation {nth}", "key": f"C14/{kind}/later"})
+    except _Boom:
+        pass
+    return {"sig": (kind, where if not isinstance(where, tuple) else where, nth, raised), "fail": fails}
+
+
+def c14_cases(tier):
+    srcs = PROBES + ["> - a\n>   b\n\n[r]: /u\n\n[r] *x*\n"]
+    cases = []
+    nmax = 6 if tier == "quick" else 25
+    for src in srcs:
+        for chain, pos in (("block", ""), ("inline", ""), ("inline2", ""), ("core", "first"), ("core", "last")):
+            for nth in range(1, nmax):
+                cases.append(("rule", (chain, pos), nth, src))
+        for rr in ("text", "paragraph_open", "code_inline", "fence", "link_open", "softbreak", "em_open"):
+            for nth in (1, 2, 3):
+                cases.append(("render_rule", rr, nth, src))
+        for nth in (1, 2):
+            cases.append(("highlight", "-", nth, src))
+        for depth in (1, 2):
+            for nth in (1, 2, 3):
+                cases.append(("reset", depth, nth, src))
+    return cases
+
+
+# ---------------------------------------------------------------------------- C12: no hidden shared state
+def c12_history(state, cfg, case):
+    """case = integer seed. A random API history on live instances, then probes against fresh instances."""
+    import random
+
+    rnd = random.Random(case)
+    ref_before = [U.make_md(cfg).render(p) for p in PROBES]
+    a = U.make_md(cfg)
+    b = U.make_md(cfg)
+    docs = list(U.random_docs(6, case, 6)) + ["[r]: /u 't'\n\n[r]\n", "- a\n\n    code\n", "    # h\n", "<b>x</b>\n"]
+    fails = []
+    for _ in range(rnd.randint(2, 8)):
+        op = rnd.randint(0, 7)
+        d = rnd.choice(docs)
+        if op == 0:
+            a.render(d)
+        elif op == 1:
+            a.render(d, {})
+        elif op == 2:
+            a.parse(d)
+        elif op == 3:
+            b.options["html"] = not b.options["html"]
+            b.options["breaks"] = True
+        elif op == 4:
+            b.disable(rnd.choice(["emphasis", "list", "code", "heading", "link"]))
+        elif op == 5:
+            b.add_render_rule("text", lambda self, tokens, idx, options, env: "X")
+        elif op == 6:
+            b.render(d)
+            b.enable(["table", "strikethrough"], True)
+        else:
+            a.renderInline("*x* [r]")
+    # A was only used for parsing: it must behave like a fresh instance
+    got = [a.render(p) for p in PROBES]
+    if got != ref_before:
+        fails.append({"what": "an instance that only parsed documents differs from a fresh identically configured one", "key": "C12/history"})
+    if a.render("[r]\n") != U.make_md(cfg).render("[r]\n"):
+        fails.append({"what": "reference definitions travelled between calls without a shared env", "key": "C12/env"})
+    # mutating B must not change fresh instances / presets
+    ref_after = [U.make_md(cfg).render(p) for p in PROBES]
+    if ref_after != ref_before:
+        fails.append({"what": "configuring one instance changed what a freshly constructed instance returns (shared preset/registry)", "key": "C12/presets"})
+    # configuration applied after parsing takes effect like on a fresh instance
+    x, y = U.make_md(cfg), U.make_md(cfg)
+    x.render(rnd.choice(docs))
+    for m in (x, y):
+        m.disable("code", True)
+        m.enable("table", True)
+    probes2 = PROBES + ["    # h\n    > q\n", "a|b\n-|-\n"]
+    if [x.render(p) for p in probes2] != [y.render(p) for p in probes2]:
+        fails.append({"what": "configuration applied after a first parse behaves differently from the same configuration on a fresh instance", "key": "C12/late-config"})
+    # render rules are per instance
+    z1 = U.make_md(cfg)
+    z1.add_render_rule("code_inline", lambda self, tokens, idx, options, env: "Z")
+    z2 = U.make_md(cfg)
+    if "Z" in z2.render("`c`"):
+        fails.append({"what": "a render rule added to one instance shows up in another", "key": "C12/render-rules"})
+    return {"sig": (case % 997, tuple(got)[0][:20]), "fail": fails}
